@@ -17,6 +17,9 @@ import (
 // deviating sites per path, explored exhaustively). The two texts are compared by the solver (they contain the
 // symbolic ports as decimal tokens).
 
+// zzC08FreeData: leave the relative order of the symbolic ports open (C09 uses the same world for its data)
+var zzC08FreeData bool
+
 func zzC08Formats() []string {
 	// csv (encoding/csv over a bufio byte buffer) and json (reflection) cannot carry symbolic text: outside the check
 	return []string{"txt", "md", "dot"}
@@ -30,7 +33,7 @@ func zzC08World() (g *zzGen, permuted []parser.K8sObject) {
 	p, e := zzPortVar("p"), zzPortVar("e")
 	vf_Assume(p < e)
 	q := zzPortVar("q")
-	{
+	if !zzC08FreeData {
 		// one relative order of the symbolic ports (the schedule, not the data, is what this check explores)
 		hp := g.pod("ns1", "a").Ports[0].ContainerPort
 		vf_Assume(vf_And(p > 1, p+1 < e, e+1 < q, q+1 < hp, hp < 8000))
